@@ -264,7 +264,7 @@ pub fn run(ctx: &Ctx) -> Report {
     total.merge(tr);
     crate::fuzzrun::replay_corpus("spell", &mut total);
     if ctx.tier == Tier::Thorough {
-        crate::fuzzrun::campaign("spell", ctx.seed.wrapping_add(13), 300_000, 8, 400, &mut total);
+        crate::fuzzrun::campaign("spell", ctx.seed.wrapping_add(13), 100_000, 8, 400, &mut total);
     }
     Report {
         stats: total,
